@@ -4,11 +4,14 @@ Spec/Literals.lean is written from C11 §6.4.4.1 (+ the extensions the property 
 theorems say what the lexer model does with every constant of that grammar.
 -/
 import NormModel.Proofs.LiteralsLex
+import NormModel.Proofs.IntReport
 import NormModel.Proofs.CharString
 import NormModel.Proofs.Floats
 import NormModel.Proofs.CharEscapes
 import NormModel.Proofs.HexFloats
 import NormModel.Proofs.StringEscapes
+import NormModel.Proofs.BadLiterals
+import NormModel.Proofs.BadFloats
 namespace Norm.C11
 open Norm Spec
 
@@ -16,45 +19,20 @@ open Norm Spec
 theorem suffix_table_complete : ∀ s ∈ Spec.integerSuffixes, Generated.integerSuffixes.contains s = true := by
   decide +kernel
 
-theorem render_word (k : IntConst) (hk : k.WF) : ∀ c ∈ k.render, c ∈ wordChars := by
-  obtain ⟨hs, hbase⟩ := hk
-  have hsuf := (suffix_tbl k.suffix hs).2.1
-  have dsub : ∀ c ∈ decDigits, c ∈ wordChars := by decide
-  have hsub : ∀ c ∈ hexDigits, c ∈ wordChars := by decide
-  intro c hc
-  unfold IntConst.render at hc
-  rcases List.mem_append.mp hc with hc | hc
-  · unfold IntConst.body at hc
-    cases hb : k.base with
-    | dec =>
-      rw [hb] at hbase hc; simp only at hbase hc
-      obtain ⟨d, ds, hd, hnz, hds⟩ := hbase
-      rw [hd] at hc
-      rcases List.mem_cons.mp hc with rfl | hc
-      · exact dsub _ (nonzero_tbl _ hnz).1
-      · exact dsub _ (by have := hds c hc; unfold isDec at this; simpa using this)
-    | oct =>
-      rw [hb] at hbase hc; simp only at hbase hc
-      rcases List.mem_cons.mp hc with rfl | hc
-      · decide
-      · exact dsub _ (oct_tbl c (by have := hbase c hc; unfold isOct at this; simpa using this)).1
-    | hex x =>
-      rw [hb] at hbase hc; simp only at hbase hc
-      obtain ⟨hx, _, hh⟩ := hbase
-      rcases List.mem_cons.mp hc with rfl | hc
-      · decide
-      · rcases List.mem_cons.mp hc with rfl | hc
-        · rcases hx with rfl | rfl <;> decide
-        · exact hsub _ (by have := hh c hc; unfold isHex at this; simpa using this)
-    | bin b =>
-      rw [hb] at hbase hc; simp only at hbase hc
-      obtain ⟨hbb, _, hh⟩ := hbase
-      rcases List.mem_cons.mp hc with rfl | hc
-      · decide
-      · rcases List.mem_cons.mp hc with rfl | hc
-        · rcases hbb with rfl | rfl <;> decide
-        · exact dsub _ (bin_tbl c (by have := hh c hc; unfold isBin at this; simpa using this)).1
-  · exact hsuf c hc
+theorem render_word (k : IntConst) (hk : k.WF) : ∀ c ∈ k.render, c ∈ wordChars :=
+  render_word_shape k hk.shape
+
+/-- **An integer constant of a recognised shape — well-formed or malformed — becomes ONE token spanning it, and the
+lexer adds exactly the diagnostics `intReport k`** (`Proofs/IntReport.lean`: INVALID_SUFFIX on a suffix that is not in
+the table, then INVALID_OCT_INT / INVALID_BIN_INT with one highlight per digit the base does not allow; nothing for a
+well-formed constant). `IntConst.Shape` is `WF` with any suffix-shaped text for suffix and any decimal digits after
+`0` / `0b`; digit strings of any length, at any position, whatever follows (within `boundaryOK`). -/
+theorem int_token (u : Uni) (k : IntConst) (hk : k.Shape) (rest : List Char) (hb : boundaryOK rest)
+    (s : LexSt) (hr : s.rest = k.render ++ rest) :
+    ∃ s' t, trySubLexers u s = .ok (some (s', t)) ∧ t.type = "CONSTANT" ∧
+      t.value = some (String.ofList k.render) ∧ t.line = s.line ∧ t.col = s.col ∧
+      s'.rest = rest ∧ s'.diags = s.diags ++ intReport k s.line s.col :=
+  Norm.int_token u k hk rest hb s hr
 
 /-- **A valid integer constant becomes one token spanning the whole constant, with no lexical
 diagnostic** — for every base, every digit string of any length, every suffix of the table,
@@ -66,35 +44,92 @@ theorem int_valid (u : Uni) (k : IntConst) (hk : k.WF) (rest : List Char) (hb : 
     ∃ s' t, trySubLexers u s = .ok (some (s', t)) ∧ t.type = "CONSTANT" ∧
       t.value = some (String.ofList k.render) ∧ t.line = s.line ∧ t.col = s.col ∧
       s'.rest = rest ∧ s'.diags = s.diags := by
-  obtain ⟨m, hm, hsplit, _, hdiag⟩ := matchInt_valid u k hk rest hb
-  have hfl := floatLogic_int_noMatch u k hk rest hb s.line s.col
-  have hplain : ∀ c ∈ k.render, plainChar c := by
-    intro c hc
-    obtain ⟨a, b, c', d, e, _⟩ := word_plain c (render_word k hk c hc)
-    exact ⟨a, b, c', d, e⟩
-  obtain ⟨p1, p2, p3⟩ := popN_plain k.render rest s hr hplain
-  have hlen : m.pre.length + m.const.length + m.suf.length = k.render.length := by
-    rw [← hsplit]; simp; omega
-  have hpf : parseFloat u s = none := by
-    unfold parseFloat
-    rw [hr, hfl]
-    split <;> rfl
-  have hpi : parseInt u s = some ((popN k.render.length s).1,
-      mkTok "CONSTANT" s (popN k.render.length s).1 (some k.render)) := by
-    unfold parseInt
-    rw [hr, hm]
-    simp only [hlen]
-    cases hpn : popN k.render.length s with
-    | mk s2 r2 =>
-      rw [hpn] at p1
-      simp only at p1
-      subst p1
-      simp only [hdiag, List.append_nil]
-      try (cases s2; rfl)
-  refine ⟨(popN k.render.length s).1, mkTok "CONSTANT" s (popN k.render.length s).1 (some k.render),
-    ?_, rfl, rfl, rfl, rfl, p2, p3⟩
-  unfold trySubLexers
-  rw [hpf, hpi]
+  obtain ⟨s', t, h1, h2, h3, h4, h5, h6, h7⟩ := Norm.int_token u k hk.shape rest hb s hr
+  rw [intReport_wf k hk, List.append_nil] at h7
+  exact ⟨s', t, h1, h2, h3, h4, h5, h6, h7⟩
+
+/-- **Malformed family "unknown suffix"**: digits that are valid for the base followed by a suffix-shaped text that is
+not in the suffix table (`10uu`, `1lul`, `0x1g`, `7_t`, …) — one CONSTANT token spanning everything, and the first
+diagnostic added is INVALID_SUFFIX, highlighted on the suffix (its first character, its whole length). -/
+theorem int_unknown_suffix_reported (u : Uni) (k : IntConst) (hk : k.Shape) (hsfx : k.suffix ∉ Spec.integerSuffixes)
+    (rest : List Char) (hb : boundaryOK rest) (s : LexSt) (hr : s.rest = k.render ++ rest) :
+    ∃ s' t ds, trySubLexers u s = .ok (some (s', t)) ∧ t.type = "CONSTANT" ∧
+      t.value = some (String.ofList k.render) ∧ s'.rest = rest ∧
+      s'.diags = s.diags ++ mkDiag "INVALID_SUFFIX" .error
+        [⟨s.line, s.col + k.body.length, some k.suffix.toList.length, none⟩] :: ds := by
+  obtain ⟨s', t, h1, h2, h3, _, _, h6, h7⟩ := Norm.int_token u k hk rest hb s hr
+  refine ⟨s', t, intDigitReport k s.line s.col, h1, h2, h3, h6, ?_⟩
+  rw [h7]
+  unfold intReport
+  simp only [hsfx, ↓reduceIte, List.cons_append, List.nil_append]
+
+/-- **Malformed family "digit not allowed in its base", octal**: `0` followed by decimal digits at least one of which
+is 8 or 9 (`0189`, `08`, `00079u`, …) — one CONSTANT token, and an INVALID_OCT_INT diagnostic with exactly one
+one-character highlight per offending digit, at that digit's column, in order (`badDigitHighlights`). -/
+theorem int_bad_octal_digit_reported (u : Uni) (k : IntConst) (hk : k.Shape) (hbase : k.base = .oct)
+    (hbad : ∃ c ∈ k.digits, isOct c = false)
+    (rest : List Char) (hb : boundaryOK rest) (s : LexSt) (hr : s.rest = k.render ++ rest) :
+    ∃ s' t, trySubLexers u s = .ok (some (s', t)) ∧ t.type = "CONSTANT" ∧
+      t.value = some (String.ofList k.render) ∧ s'.rest = rest ∧
+      mkDiag "INVALID_OCT_INT" .error (badDigitHighlights s.line s.col 1 k.digits isOct) ∈ s'.diags ∧
+      badDigitHighlights s.line s.col 1 k.digits isOct ≠ [] := by
+  obtain ⟨s', t, h1, h2, h3, _, _, h6, h7⟩ := Norm.int_token u k hk rest hb s hr
+  have hne := badDigitHighlights_ne_nil s.line s.col 1 k.digits isOct hbad
+  refine ⟨s', t, h1, h2, h3, h6, ?_, hne⟩
+  rw [h7]
+  apply List.mem_append_right
+  unfold intReport intDigitReport
+  apply List.mem_append_right
+  rw [hbase]
+  simp only
+  unfold digitReport
+  have : (badDigitHighlights s.line s.col 1 k.digits isOct).isEmpty = false := by
+    cases h : badDigitHighlights s.line s.col 1 k.digits isOct with
+    | nil => exact absurd h hne
+    | cons _ _ => rfl
+  simp [this]
+
+/-- … binary: `0b` / `0B` followed by decimal digits at least one of which is not 0 or 1 (`0b12013`, `0B2`, …). -/
+theorem int_bad_binary_digit_reported (u : Uni) (k : IntConst) (hk : k.Shape) (b : Char) (hbase : k.base = .bin b)
+    (hbad : ∃ c ∈ k.digits, isBin c = false)
+    (rest : List Char) (hb : boundaryOK rest) (s : LexSt) (hr : s.rest = k.render ++ rest) :
+    ∃ s' t, trySubLexers u s = .ok (some (s', t)) ∧ t.type = "CONSTANT" ∧
+      t.value = some (String.ofList k.render) ∧ s'.rest = rest ∧
+      mkDiag "INVALID_BIN_INT" .error (badDigitHighlights s.line s.col 2 k.digits isBin) ∈ s'.diags ∧
+      badDigitHighlights s.line s.col 2 k.digits isBin ≠ [] := by
+  obtain ⟨s', t, h1, h2, h3, _, _, h6, h7⟩ := Norm.int_token u k hk rest hb s hr
+  have hne := badDigitHighlights_ne_nil s.line s.col 2 k.digits isBin hbad
+  refine ⟨s', t, h1, h2, h3, h6, ?_, hne⟩
+  rw [h7]
+  apply List.mem_append_right
+  unfold intReport intDigitReport
+  apply List.mem_append_right
+  rw [hbase]
+  simp only
+  unfold digitReport
+  have : (badDigitHighlights s.line s.col 2 k.digits isBin).isEmpty = false := by
+    cases h : badDigitHighlights s.line s.col 2 k.digits isBin with
+    | nil => exact absurd h hne
+    | cons _ _ => rfl
+  simp [this]
+
+/-- Non-vacuity: `0189`, `0b12013` and `10uu` have the shape, are not well-formed in the way the theorems name, and
+their expected reports are what the golden files of the test-suite show. -/
+example : (⟨.oct, "189".toList, ""⟩ : IntConst).Shape ∧ (∃ c ∈ "189".toList, isOct c = false) ∧
+    (intReport ⟨.oct, "189".toList, ""⟩ 1 5).map (fun d => (d.name, d.highlights.map (fun h => (h.line, h.col)))) =
+      [("INVALID_OCT_INT", [(1, 7), (1, 8)])] := by
+  refine ⟨⟨by decide, ?_⟩, ⟨'8', by decide, by decide⟩, by decide⟩
+  intro c hc; revert c; decide
+example : (⟨.bin 'b', "12013".toList, ""⟩ : IntConst).Shape ∧ (∃ c ∈ "12013".toList, isBin c = false) ∧
+    (intReport ⟨.bin 'b', "12013".toList, ""⟩ 1 1).map (fun d => (d.name, d.highlights.map (fun h => (h.line, h.col)))) =
+      [("INVALID_BIN_INT", [(1, 4), (1, 7)])] := by
+  refine ⟨⟨by decide, Or.inl rfl, by decide, ?_⟩, ⟨'2', by decide, by decide⟩, by decide⟩
+  intro c hc; revert c; decide
+example : (⟨.dec, "10".toList, "uu"⟩ : IntConst).Shape ∧ "uu" ∉ Spec.integerSuffixes ∧
+    (intReport ⟨.dec, "10".toList, "uu"⟩ 3 9).map (fun d => (d.name, d.highlights.map (fun h => (h.line, h.col, h.length)))) =
+      [("INVALID_SUFFIX", [(3, 11, some 2)])] := by
+  refine ⟨⟨by decide, '1', ['0'], rfl, by decide, ?_⟩, by decide, by decide⟩
+  intro c hc; revert c; decide
 
 /-- every floating suffix of the standard is in the table regenerated from the source -/
 theorem float_suffix_table_complete : ∀ s ∈ Spec.floatSuffixes, Generated.floatSuffixes.contains s = true := by
@@ -252,5 +287,111 @@ example : ((lex {} "089".toList).toOption.map (fun r => r.diags.map (·.name))) 
     ((lex {} "1.2.3".toList).toOption.map (fun r => r.diags.map (·.name))) = some ["MULTIPLE_DOTS"] ∧
     ((lex {} "''".toList).toOption.map (fun r => r.diags.map (·.name))) = some ["EMPTY_CHAR"] := by
   decide +kernel
+
+/-! ### malformed character constants and strings (`Proofs/BadLiterals.lean`) -/
+
+/-- **Malformed family "empty character constant"** `pre ''` (every encoding prefix, at any position, whatever
+follows): one CHAR_CONST token spanning it, and exactly one diagnostic added, EMPTY_CHAR over the token. -/
+theorem empty_char_reported (u : Uni) (pre : String) (hp : pre ∈ litPrefixes) (rest : List Char) (s : LexSt)
+    (hr : s.rest = pre.toList ++ '\'' :: '\'' :: rest) :
+    ∃ s' t, trySubLexers u s = .ok (some (s', t)) ∧ t.type = "CHAR_CONST" ∧
+      t.value = some (String.ofList (pre.toList ++ ['\'', '\''])) ∧ t.line = s.line ∧ t.col = s.col ∧
+      s'.rest = rest ∧
+      s'.diags = s.diags ++ [mkDiag "EMPTY_CHAR" .error [⟨s.line, s.col, some (pre.toList ++ ['\'', '\'']).length, none⟩]] :=
+  Norm.empty_char_reported u pre hp rest s hr
+
+/-- **Malformed family "unterminated character constant", end of file**: `pre ' body` and nothing more (body: any
+number of opaque characters other than the quote, possibly none) — one CHAR_CONST token spanning everything, and
+exactly UNEXPECTED_EOF_CHR over the token. -/
+theorem char_eof_reported (u : Uni) (pre : String) (hp : pre ∈ litPrefixes) (body : List Char)
+    (hb : ∀ c ∈ body, OpaqueChar c ∧ c ≠ '\'') (s : LexSt) (hr : s.rest = pre.toList ++ '\'' :: body) :
+    ∃ s' t, trySubLexers u s = .ok (some (s', t)) ∧ t.type = "CHAR_CONST" ∧
+      t.value = some (String.ofList (pre.toList ++ '\'' :: body)) ∧ t.line = s.line ∧ t.col = s.col ∧
+      s'.rest = [] ∧
+      s'.diags = s.diags ++ [mkDiag "UNEXPECTED_EOF_CHR" .error
+        [⟨s.line, s.col, some (pre.toList ++ '\'' :: body).length, none⟩]] :=
+  Norm.char_eof_reported u pre hp body hb s hr
+
+/-- **… end of line**: `pre ' body` directly followed by a newline — one CHAR_CONST token spanning the text up to the
+newline, which stays unread (the line structure of the file survives), and exactly UNEXPECTED_EOL_CHR: the token, and
+the place where the closing quote is missing. -/
+theorem char_eol_reported (u : Uni) (pre : String) (hp : pre ∈ litPrefixes) (body : List Char)
+    (hb : ∀ c ∈ body, OpaqueChar c ∧ c ≠ '\'') (rest : List Char) (s : LexSt)
+    (hr : s.rest = pre.toList ++ '\'' :: (body ++ '\n' :: rest)) :
+    ∃ s' t, trySubLexers u s = .ok (some (s', t)) ∧ t.type = "CHAR_CONST" ∧
+      t.value = some (String.ofList (pre.toList ++ '\'' :: body)) ∧ t.line = s.line ∧ t.col = s.col ∧
+      s'.rest = '\n' :: rest ∧
+      s'.diags = s.diags ++ [mkDiag "UNEXPECTED_EOL_CHR" .error
+        [⟨s.line, s.col, some (pre.toList ++ '\'' :: body).length, none⟩,
+         ⟨s.line, s.col + (pre.toList ++ '\'' :: body).length, some 1, some charHint⟩]] :=
+  Norm.char_eol_reported u pre hp body hb rest s hr
+
+/-- **Malformed family "unterminated string"**: `pre " body` and nothing more — one STRING token spanning everything,
+and exactly UNEXPECTED_EOF_STR: the token, and the place where the closing quote is missing. -/
+theorem string_eof_reported (u : Uni) (pre : String) (hp : pre ∈ litPrefixes) (body : List Char)
+    (hb : ∀ c ∈ body, OpaqueChar c ∧ c ≠ '"') (s : LexSt) (hr : s.rest = pre.toList ++ '"' :: body) :
+    ∃ s' t, trySubLexers u s = .ok (some (s', t)) ∧ t.type = "STRING" ∧
+      t.value = some (String.ofList (pre.toList ++ '"' :: body)) ∧ t.line = s.line ∧ t.col = s.col ∧
+      s'.rest = [] ∧
+      s'.diags = s.diags ++ [mkDiag "UNEXPECTED_EOF_STR" .error
+        [⟨s.line, s.col, some (pre.toList ++ '"' :: body).length, none⟩,
+         ⟨s.line, s.col + (pre.toList ++ '"' :: body).length, some 1, some strHint⟩]] :=
+  Norm.string_eof_reported u pre hp body hb s hr
+
+/-- Non-vacuity: the hypotheses hold for `L'ab`, and the whole lexer agrees on `x = 'ab` + newline and `"abc`. -/
+example : ("L" ∈ litPrefixes) ∧ (∀ c ∈ "ab".toList, OpaqueChar c ∧ c ≠ '\'') := by
+  refine ⟨by decide, ?_⟩
+  intro c hc
+  have : c = 'a' ∨ c = 'b' := by simpa using hc
+  rcases this with rfl | rfl <;> (unfold OpaqueChar plainChar; decide)
+example : (lex {} "x = 'ab\ny = \"abc".toList).toOption.map
+      (fun r => (r.tokens.map (fun t => (t.type, t.line, t.col)), r.diags.map (fun d => (d.name, d.highlights.map (fun h => (h.line, h.col))))))
+    = some ([("IDENTIFIER", 1, 1), ("SPACE", 1, 2), ("ASSIGN", 1, 3), ("SPACE", 1, 4), ("CHAR_CONST", 1, 5), ("NEWLINE", 1, 8),
+             ("IDENTIFIER", 2, 1), ("SPACE", 2, 2), ("ASSIGN", 2, 3), ("SPACE", 2, 4), ("STRING", 2, 5)],
+            [("UNEXPECTED_EOL_CHR", [(1, 5), (1, 8)]), ("UNEXPECTED_EOF_STR", [(2, 5), (2, 9)])]) := by decide +kernel
+
+/-! ### malformed floating constants (`Proofs/BadFloats.lean`) -/
+
+/-- **Malformed family "exponent without digits"**: `D+ [eE][+-]?`, `D*.D+ [eE][+-]?`, `D+. [eE][+-]?` (digit strings
+of any length, either letter, either sign or none, every floating suffix of the standard) where nothing follows that
+could continue the exponent — `1e`, `1e+`, `1.5e-`, `.5E`, `1.e+f` —: one CONSTANT token spanning the whole text, and
+exactly one diagnostic added, BAD_EXPONENT, highlighted from the exponent letter to the end of the constant. -/
+theorem bad_exponent_reported (u : Uni) (k : BadExpFloat) (hk : k.WF) (rest : List Char) (hb : boundaryOK rest)
+    (s : LexSt) (hr : s.rest = k.render ++ rest) :
+    ∃ s' t, trySubLexers u s = .ok (some (s', t)) ∧ t.type = "CONSTANT" ∧
+      t.value = some (String.ofList k.render) ∧ t.line = s.line ∧ t.col = s.col ∧
+      s'.rest = rest ∧
+      s'.diags = s.diags ++ [mkDiag "BAD_EXPONENT" .error
+        [⟨s.line, s.col + k.mant.length, some (k.x.render.length + k.sfx.toList.length), none⟩]] :=
+  Norm.bad_exponent_reported u k hk rest hb s hr
+
+/-- Non-vacuity: `1.5e-` is a member, and the whole lexer reports it where the theorem says. -/
+example : (BadExpFloat.frac "1".toList "5".toList ⟨'e', some '-'⟩ "").WF ∧
+    (BadExpFloat.frac "1".toList "5".toList ⟨'e', some '-'⟩ "").render = "1.5e-".toList := by
+  refine ⟨⟨Or.inl (by decide), by decide, by decide, ⟨Or.inl rfl, ?_⟩, by decide⟩, by decide⟩
+  intro s hs; simp at hs; subst hs; exact Or.inr rfl
+example : (lex {} "x = 1.5e-;".toList).toOption.map
+      (fun r => (r.tokens.map (fun t => (t.type, t.col)), r.diags.map (fun d => (d.name, d.highlights.map (fun h => (h.line, h.col))))))
+    = some ([("IDENTIFIER", 1), ("SPACE", 2), ("ASSIGN", 3), ("SPACE", 4), ("CONSTANT", 5), ("SEMI_COLON", 10)],
+            [("BAD_EXPONENT", [(1, 8)])]) := by decide +kernel
+
+/-- **Malformed family "several dots"**: `D*.D*` (at least one digit) directly followed by another dot and any run of
+letters, digits, underscores and dots — `1.2.3`, `1..5`, `.5.`, `3.14.15f` —: one CONSTANT token spanning the whole
+text, and exactly one diagnostic added, MULTIPLE_DOTS, highlighted from the second dot to the end of the token. -/
+theorem multiple_dots_reported (u : Uni) (ip fp more : List Char) (hne : ip ≠ [] ∨ fp ≠ [])
+    (hip : ∀ c ∈ ip, c ∈ decDigits) (hfp : ∀ c ∈ fp, c ∈ decDigits) (hmore : ∀ c ∈ more, c ∈ wordChars ∨ c = '.')
+    (rest : List Char) (hb : boundaryOK rest) (s : LexSt) (hr : s.rest = ip ++ '.' :: fp ++ '.' :: more ++ rest) :
+    ∃ s' t, trySubLexers u s = .ok (some (s', t)) ∧ t.type = "CONSTANT" ∧
+      t.value = some (String.ofList (ip ++ '.' :: fp ++ '.' :: more)) ∧ t.line = s.line ∧ t.col = s.col ∧
+      s'.rest = rest ∧
+      s'.diags = s.diags ++ [mkDiag "MULTIPLE_DOTS" .error
+        [⟨s.line, s.col + (ip ++ '.' :: fp).length, some ('.' :: more).length, none⟩]] :=
+  Norm.multiple_dots_reported u ip fp more hne hip hfp hmore rest hb s hr
+
+/-- Non-vacuity: `1.2.3` through the whole lexer. -/
+example : (lex {} "x = 1.2.3;".toList).toOption.map
+      (fun r => (r.tokens.map (fun t => (t.type, t.col)), r.diags.map (fun d => (d.name, d.highlights.map (fun h => (h.line, h.col))))))
+    = some ([("IDENTIFIER", 1), ("SPACE", 2), ("ASSIGN", 3), ("SPACE", 4), ("CONSTANT", 5), ("SEMI_COLON", 10)],
+            [("MULTIPLE_DOTS", [(1, 8)])]) := by decide +kernel
 
 end Norm.C11
